@@ -5,6 +5,20 @@ from pyvc.sym import I, B, A, A2, iv, fresh, fresh_seq, Seq, Tup, Mat, Obj, NONE
 from pyvc import specz3
 
 
+
+def split_top(txt):
+    """split 'a, b' at the last comma that is not inside parentheses."""
+    depth, cut_ = 0, None
+    for i_, ch in enumerate(txt):
+        if ch in "([":
+            depth += 1
+        elif ch in ")]":
+            depth -= 1
+        elif ch == "," and depth == 0:
+            cut_ = i_
+    return txt[:cut_], txt[cut_ + 1:]
+
+
 def const_value(v):
     if isinstance(v, str):
         return const_str(v)
@@ -69,7 +83,7 @@ def fresh_of(ex, st, shape, name, scope=None):
             st.assume(s.forall(lambda v: z3.Or(v == 0, v == 1)))
         return s
     if shape.startswith("mat(") and shape.endswith(")"):
-        r_, c_ = shape[4:-1].rsplit(",", 1)
+        r_, c_ = split_top(shape[4:-1])
         rows = ex.spec_eval(r_, scope or st)
         cols = ex.spec_eval(c_, scope or st)
         return Mat(fresh(name, A2), rows, cols)
